@@ -477,6 +477,24 @@ def run_shard(shard):
                                      {'type': 'scaled', 'scale': 1, 'min': codes[0], 'max': codes[-1] - rng.choice([0, 1])}])
                     if db.get('min') > db.get('max'):
                         db = None
+            if da['type'] in ('double', 'int', 'scaled') and rng.random() < 0.25:
+                # another number kind whose limits enclose those of A: the verdict may go either way, but when it is given
+                # every value of A (also those between the limits: fractions, grid points) must be taken by B
+                if da['type'] == 'scaled':
+                    ilo, ihi = refdt.scaled_limits(da)
+                    lo, hi = ilo * da['scale'], ihi * da['scale']
+                else:
+                    lo, hi = da.get('min', -1e300), da.get('max', 1e300)
+                if abs(lo) < 1e15 and abs(hi) < 1e15:
+                    import math
+                    wlo, whi = math.floor(lo) - rng.choice([0, 0, 1]), math.ceil(hi) + rng.choice([0, 0, 1])
+                    db = rng.choice([{'type': 'int', 'min': wlo, 'max': whi},
+                                     {'type': 'double', 'min': float(wlo), 'max': float(whi)},
+                                     {'type': 'scaled', 'scale': rng.choice([1, 2, 0.5, 0.25, 0.1]), 'min': wlo, 'max': whi}])
+                    if db['type'] == 'scaled':
+                        sc = db['scale']
+                        db['min'], db['max'] = math.floor(wlo / sc), math.ceil(whi / sc)
+                    rel = 'random'
             if db is None:
                 continue
             if rel == 'narrowed' and rng.random() < 0.5:
